@@ -183,7 +183,38 @@ def validate(run, tfile, tag, timeout=1800, kind="broker", dev=()):
     cfg = cfg.replace("Dev = {}", "Dev = {%s}" % ", ".join('"%s"' % d for d in dev))
     cfg = cfg.replace("Conns <- TraceConns", "Conns = {%s}" % ", ".join('"%s"' % c for c in conns))
     cfg = cfg.replace("SKeys <- TraceSKeys", "SKeys = {%s}" % ", ".join('"%s"' % k for k in skeys))
-    r = lib.tlc(run.wd, KINDS[kind]["module"], cfg, workers=1, deque=True, timeout=timeout, defs={"TRACE": tfile}, extra=["-nowarning"])
+    try:
+        r = lib.tlc(run.wd, KINDS[kind]["module"], cfg, workers=1, deque=True, timeout=min(timeout, 600) if len(order) > 1 else timeout,
+                    defs={"TRACE": tfile}, extra=["-nowarning"])
+    except lib.Infra as e:
+        if "timed out" not in str(e) or len(order) == 1:
+            raise
+        # the batch did not finish (the exhaustive search for a REJECTED trace can be large): decide the traces one by one,
+        # each with its own time limit; a trace that stays undecided is never reported as a violation
+        res, allev = {}, events
+        gen = dist = 0
+        for tr in order:
+            one = os.path.join(run.wd, "%s.one.%d.ndjson" % (tag, tr))
+            with open(one, "w") as f:
+                for i in sorted(events):
+                    if events[i]["tr"] == tr:
+                        f.write(json.dumps(events[i]) + "\n")
+            try:
+                r1, _, rr = validate(run, one, "%s.one.%d" % (tag, tr), timeout=90, kind=kind, dev=dev)
+                x = r1[tr]
+                if not x["ok"]:
+                    # positions are relative to the single-trace file: translate to the batch numbering
+                    first = min(i for i in events if events[i]["tr"] == tr)
+                    x["pos"] = x["pos"] + first - 1
+                res[tr] = x
+            except lib.Infra:
+                res[tr] = {"ok": False, "undecided": True, "pos": 0, "event": {"ev": "(undecided: search did not finish)"}, "guards": []}
+            os.remove(one)
+        class _R:
+            distinct = 0
+            generated = 0
+            out = ""
+        return res, events, _R()
     if not r.lines("HW"):
         raise lib.Infra("%s run gave no verdict:\n" % KINDS[kind]["module"] + r.out[-3000:])
     accepted = {int(x) for x in r.lines("ACCEPTED")}
@@ -293,8 +324,12 @@ def check_family(run, prop, scripts, tag, also=(), kind="broker", known=None, re
                          % (tr, res[tr]["event"].get("ev")))
     nacc = sum(1 for x in final.values() if x["ok"])
     out = []
+    undecided = [tr for tr, x in final.items() if x.get("undecided")]
     for tr, x in sorted(final.items()):
         if x["ok"]:
+            continue
+        if x.get("undecided"):
+            run.note("scenario %d: the search over the specification did not finish within its time limit - undecided, not reported" % tr)
             continue
         ev = x["event"]
         tags = set()
@@ -318,6 +353,8 @@ def check_family(run, prop, scripts, tag, also=(), kind="broker", known=None, re
         else:
             run.note("not attributed to %s (tags %s): %s" % (prop, sorted(tags), what[:300]))
     run.add(traces_validated_against_impl=nacc, evaluations=len(final))
+    if undecided and not run.violations:
+        raise lib.Infra("%d scenario(s) undecided (trace validation did not finish) and no decided violation" % len(undecided))
     return nacc, out, events, final
 
 
